@@ -13,14 +13,17 @@
 (***************************************************************************)
 EXTENDS Render, Json
 
-CONSTANTS MaxDepth, MaxSegs, WithFilters
+CONSTANTS MaxDepth, MaxSegs, WithFilters, Ext      \* Ext: also draw the documented non-standard constructs (C13)
 
 VARIABLES doc, q, pc, nodes
 vars == <<doc, q, pc, nodes>>
 
 a_ == <<97>>  b_ == <<98>>  c_ == <<99>>
 NamePool == {a_, b_, c_, <<>>, <<49>>, <<233>>, <<39>>, <<97, 92>>, <<97, 32, 98>>, <<128512>>, <<48>>, <<45, 49>>}
-Scalars == {Null, Bool(TRUE), Bool(FALSE), IntV(0), IntV(1), IntV(2), IntV(-1), Num(3), Str(<<>>), Str(a_), Str(b_), Str(<<97, 98>>), Str(<<49>>)}
+\* with extensions, membership tests are drawn: no booleans then (the statement leaves the equality of `in` open)
+Scalars == IF Ext THEN {Null, IntV(0), IntV(1), IntV(2), IntV(-1), Num(3), Str(<<>>), Str(a_), Str(b_), Str(<<97, 98>>), Str(<<49>>)}
+           ELSE {Null, Bool(TRUE), Bool(FALSE), IntV(0), IntV(1), IntV(2), IntV(-1), Num(3), Str(<<>>), Str(a_), Str(b_), Str(<<97, 98>>), Str(<<49>>)}
+TheCtx == Obj(<<a_, b_>>, <<IntV(1), Arr(<<IntV(1), Str(a_)>>)>>)
 Unset == [t |-> "unset"]
 
 RECURSIVE RandVal(_), RandSeq(_, _), RandNames(_, _)
@@ -36,14 +39,17 @@ RECURSIVE DocNames(_)
 DocNames(v) == IF v.t = "obj" THEN Range(v.ks) \cup UNION {DocNames(v.vs[i]) : i \in 1..Len(v.vs)}
                ELSE IF v.t = "arr" THEN UNION {DocNames(v.xs[i]) : i \in 1..Len(v.xs)} ELSE {}
 
+RECURSIVE RandSeq0(_)
+RandSeq0(n) == IF n = 0 THEN <<>> ELSE Append(RandSeq0(n - 1), RandomElement({IntV(1), IntV(2), Str(a_), Str(b_)}))
 RandOpt(S) == IF RandomElement(1..3) = 1 THEN <<>> ELSE <<RandomElement(S)>>
 RECURSIVE RandExpr(_), RandSels(_, _, _), RandSegs(_, _, _)
 RandSingular == LET k == RandomElement(1..4) IN
                 IF k = 1 THEN Q("@", <<>>) ELSE IF k = 2 THEN Q("@", <<Child(SName(RandomElement({a_, b_, c_})))>>)
                 ELSE IF k = 3 THEN Q("@", <<Child(SIndex(RandomElement({0, 1, -1})))>>) ELSE Q("$", <<Child(SName(RandomElement({a_, b_})))>>)
 RandLit == OLit(RandomElement(Scalars))
-RandOperand == LET k == RandomElement(1..6) IN
+RandOperand == LET k == RandomElement(1..(IF Ext THEN 9 ELSE 6)) IN
                IF k <= 3 THEN OQ(RandSingular) ELSE IF k <= 5 THEN RandLit
+               ELSE IF k = 7 THEN OKey ELSE IF k = 8 THEN OQ(Q("_", <<Child(SName(RandomElement({a_, b_, c_})))>>)) ELSE IF k = 9 THEN OUndef
                ELSE OFn(RandomElement({"length", "count", "value"}),
                         <<IF RandomElement(1..2) = 1 THEN OQ(RandSingular) ELSE OQ(Q("@", <<Child(SWild)>>))>>)
 FixFn(x) == IF x.k = "fn" /\ x.f = "length" /\ ~IsSingular(x.args[1].q) THEN OFn("count", x.args) ELSE x
@@ -51,39 +57,45 @@ RandExpr(d) ==
   LET k == RandomElement(1..8) IN
   IF d = 0 \/ k <= 4 THEN
      (IF RandomElement(1..3) = 1 THEN ETest(IF RandomElement(1..2) = 1 THEN RandSingular ELSE Q("@", <<Seg(RandomElement(BOOLEAN), <<SWild>>)>>))
-      ELSE ECmp(RandomElement({"==", "!=", "<", "<=", ">", ">="}), FixFn(RandOperand), FixFn(RandOperand)))
+      ELSE IF Ext /\ RandomElement(1..4) = 1
+           THEN (LET item == IF RandomElement(1..2) = 1 THEN OLit(RandomElement({IntV(1), IntV(2), Str(a_), Str(b_), Str(<<>>)})) ELSE OQ(RandSingular)
+                     cont == IF RandomElement(1..2) = 1 THEN OList(RandSeq0(RandomElement(0..3))) ELSE OQ(RandSingular)
+                 IN IF RandomElement(1..2) = 1 THEN ECmp("in", item, cont) ELSE ECmp("contains", cont, item))
+      ELSE ECmp(RandomElement(IF Ext THEN {"==", "!=", "<", "<=", ">", ">=", "<>"} ELSE {"==", "!=", "<", "<=", ">", ">="}), FixFn(RandOperand), FixFn(RandOperand)))
   ELSE IF k = 5 THEN ENot(RandExpr(d - 1))
   ELSE IF k <= 7 THEN (IF RandomElement(1..2) = 1 THEN EAnd(RandExpr(d - 1), RandExpr(d - 1)) ELSE EOr(RandExpr(d - 1), RandExpr(d - 1)))
   ELSE ETest(Q("@", <<Child(SFilter(RandExpr(0)))>>))
 
 \* names are mostly drawn from the names that occur in the document, so that queries select something
-RandSel(names) == LET k == RandomElement(1..(IF WithFilters THEN 7 ELSE 5)) IN
+RandSel(names) == LET k == RandomElement(1..(IF WithFilters THEN (IF Ext THEN 8 ELSE 7) ELSE 5)) IN
            IF k = 1 THEN SName(RandomElement(NamePool)) ELSE IF k = 2 THEN SIndex(RandomElement(-3..3))
            ELSE IF k = 3 THEN SSlice(RandOpt(-5..5), RandOpt(-5..5), RandOpt(-3..3)) ELSE IF k = 4 THEN SWild
-           ELSE IF k = 5 THEN SName(RandomElement(names \cup {a_})) ELSE SFilter(RandExpr(2))
+           ELSE IF k = 5 THEN SName(RandomElement(names \cup {a_})) ELSE IF k = 8 THEN SKeys ELSE SFilter(RandExpr(2))
 RandSels(n, acc, names) == IF n = 0 THEN acc ELSE RandSels(n - 1, Append(acc, RandSel(names)), names)
 RandSegs(n, acc, names) == IF n = 0 THEN acc
                     ELSE RandSegs(n - 1, Append(acc, Seg(RandomElement(1..4) = 1, RandSels(IF RandomElement(1..4) = 1 THEN 2 ELSE 1, <<>>, names))), names)
 
 Init == doc = Unset /\ q = Unset /\ pc = 0 /\ nodes = <<>>
 Choose == /\ doc = Unset
-          /\ \E d \in {RandVal(MaxDepth)} : \E qq \in {Q("$", RandSegs(RandomElement(1..MaxSegs), <<>>, DocNames(d)))} :
+          /\ \E d \in {RandVal(MaxDepth)} : \E qq \in {Q(IF Ext /\ RandomElement(1..6) = 1 THEN "^" ELSE "$", RandSegs(RandomElement(1..MaxSegs), <<>>, DocNames(d)))} :
                /\ IsContainer(d) \/ d.t # "str"        \* a root-level JSON string is read as JSON text by the API
-               /\ doc' = d /\ q' = qq /\ nodes' = <<Node(<<>>, d)>>
+               /\ doc' = d /\ q' = qq /\ nodes' = StartNodes(qq, RootEnv(d, TheCtx))
           /\ pc' = 0
 Segment == /\ doc # Unset /\ pc < Len(q.segs)
-           /\ nodes' = ApplySegment(q.segs[pc + 1], nodes, RootEnv(doc, Obj(<<>>, <<>>)))
+           /\ nodes' = ApplySegment(q.segs[pc + 1], nodes, RootEnv(doc, TheCtx))
            /\ pc' = pc + 1
            /\ UNCHANGED <<doc, q>>
 Next == Choose \/ Segment
 Spec == Init /\ [][Next]_vars
 
 Terminal == doc # Unset /\ pc = Len(q.segs)
-LocOK == doc # Unset => \A i \in 1..Len(nodes) : At(doc, nodes[i].loc) = nodes[i].v
+LocOK == (doc # Unset /\ q.root = "$") => \A i \in 1..Len(nodes) : (\A j \in 1..Len(nodes[i].loc) : nodes[i].loc[j].k # "kname") => At(doc, nodes[i].loc) = nodes[i].v
 RECURSIVE RunDirect(_, _, _, _)
 RunDirect(segs, k, ns, env) == IF k > Len(segs) THEN ns ELSE RunDirect(segs, k + 1, SegDirect(segs[k], ns, env), env)
-Denotation == Terminal => /\ nodes = Eval(q, doc)
-                          /\ nodes = RunDirect(q.segs, 1, <<Node(<<>>, doc)>>, RootEnv(doc, Obj(<<>>, <<>>)))
-Styles == << StdStyle, [StdStyle EXCEPT !.q = 34, !.sp = <<32>>, !.dot = TRUE, !.paren = "full"] >>
-Export == Terminal => PrintT(ToJson([q |-> q, doc |-> doc, texts |-> [s \in 1..2 |-> Render(q, Styles[s])], res |-> [i \in 1..Len(nodes) |-> nodes[i].loc]]))
+Denotation == Terminal => /\ nodes = EvalCtx(q, doc, TheCtx)
+                          /\ nodes = RunDirect(q.segs, 1, StartNodes(q, RootEnv(doc, TheCtx)), RootEnv(doc, TheCtx))
+Styles == IF Ext THEN << StdStyle, [StdStyle EXCEPT !.words = TRUE, !.ne = <<60, 62>>, !.nil = <<110, 105, 108>>, !.undef = <<109, 105, 115, 115, 105, 110, 103>>, !.bare = TRUE, !.rootless = TRUE, !.dot = TRUE] >>
+          ELSE << StdStyle, [StdStyle EXCEPT !.q = 34, !.sp = <<32>>, !.dot = TRUE, !.paren = "full"] >>
+Export == Terminal => PrintT(ToJson([q |-> q, doc |-> doc, ctx |-> TheCtx, texts |-> [s \in 1..2 |-> Render(q, Styles[s])],
+                                      res |-> [i \in 1..Len(nodes) |-> nodes[i].loc], vals |-> [i \in 1..Len(nodes) |-> nodes[i].v]]))
 =============================================================================
